@@ -11,20 +11,26 @@ from wormhole._dilation.roles import LEADER, FOLLOWER
 from wormhole._interfaces import IDilationConnector, IDilationManager
 
 from ..core import Result
-from ..fakes import ToyNoise, FakeTransport, hx
+from ..fakes import ToyNoise, FakeTransport, hx, toy_tag
 from ..util import automat_state
 
 ID = "C12"
 PROP_MODULES = ["WV.Props.C12"]
 TRUSTED = ["Noise NNpsk0 (noiseprotocol is not installed; an ideal nonce-indexed AEAD interface in Lean, a toy AEAD in the harness)",
            "UTF-8 codec (validity predicate abstract in the theorems)",
+           "Noise handshake verification (noise.read_message) is an abstract predicate handshakeOK in the theorems",
+           "the relay's expected reply b'ok\\n' is written in the model by hand (correspondence-checked, not generated)",
            "Twisted: an exception leaving dataReceived drops the connection"]
 RULE = ("record codec cases (7 types x boundary fields), be4 boundary values, frame sealing at payload sizes around "
-        "0/65519/65520/2*65519, and whole-connection byte streams (relay/no relay, leader/follower) under random and "
-        "1-byte chunkings with single-point corruptions; non-trivial = reaches a record/frame/error branch; "
-        "distinct = distinct canonical output traces")
+        "0/65519/65520/2*65519, a _Framer on its own under chunkings (tokens vs one-shot), and whole-connection byte "
+        "streams (relay/no relay, leader/follower; the peer's bytes produced by the real send_record and compared with "
+        "the model's sendRecord) under random / 1-byte / per-frame chunkings with single-point corruptions, truncation, "
+        "insertion, wrong prologue, wrong relay reply, wrong key, swapped/duplicated frames; thorough adds every "
+        "single-byte corruption and every truncation of a recorded honest stream; non-trivial = reaches a "
+        "record/frame/error branch; distinct = distinct canonical output traces")
 
 MAXP = 65519
+MUTS = ["flip", "trunc", "insert", "badpro", "badrelay", "swap", "dupkcm", "wrongkey", "badhs"]
 BOUND = [0, 1, 255, 256, 65535, 65536, 2**31, 2**32 - 1]
 
 
@@ -87,12 +93,38 @@ def rand_rec(rng, wide=False):
 
 
 def cases(rng, tier):
-    n = 1 if tier == "quick" else 12
+    n = 1 if tier == "quick" else 40
     out = []
     # corpus: boundary payload sizes for sealing
     for size in [0, 1, MAXP - 1, MAXP, MAXP + 1, 2 * MAXP, 2 * MAXP + 1]:
         out.append(dict(kind="seal", sizes=[size, 3, size]))
     out.append(dict(kind="be4", values=BOUND + [2**32, 2**32 + 1, 2**33]))
+    # corpus: one Data record whose encoding is exactly at / just over one and two Noise packets, honest
+    for i, dlen in enumerate([MAXP - 10, MAXP - 9, MAXP - 8, 2 * MAXP - 9, 2 * MAXP - 8]):
+        out.append(dict(kind="conn", relay=bool(i % 2), leader=bool(i // 2 % 2),
+                        recs=[["ack", 1], ["data", 2**32 - 1, 0, "%%BIG%%%d" % dlen], ["close", 3, 4]],
+                        chunk=["all", "rand", "frames"][i % 3], select_after=[0, 1, 99][i % 3], mut=None, mseed=i))
+    # corpus: every kind of manipulation once, on a fixed small stream
+    small = [["open", 0, 1, "c3a9"], ["data", 1, 1, "00010203"], ["ping", "01020304"], ["close", 2, 1]]
+    for i, m in enumerate(MUTS):
+        for relay in (False, True):
+            out.append(dict(kind="conn", relay=relay, leader=bool(i % 2), recs=small, chunk=["one", "rand", "all"][i % 3],
+                            select_after=i % 3, mut=m, mseed=1000 + i))
+    if tier == "thorough":
+        # small-scope exhaustive: every single-byte corruption (two bit patterns) and every truncation
+        # of the recorded honest stream, relay and direct
+        tiny = [["data", 1, 1, "aa55"], ["ack", 9]]
+        for relay in (False, True):
+            for ld in (True, False):
+                total = stream_len(relay, ld, tiny)
+                for pos in range(total):
+                    for bit in (0, 3, 7):
+                        out.append(dict(kind="conn", relay=relay, leader=ld, recs=tiny, chunk=["one", "rand", "all"][bit % 3],
+                                        select_after=bit % 2, mut="flip", mseed=pos, pos=pos, bit=bit))
+                    out.append(dict(kind="conn", relay=relay, leader=ld, recs=tiny, chunk="rand", select_after=1,
+                                    mut="trunc", mseed=pos, pos=pos))
+    for _ in range(30 * n):
+        out.append(rand_framer_case(rng))
     for _ in range(60 * n):
         out.append(dict(kind="codec", rec=rand_rec(rng, wide=True)))
     for _ in range(40 * n):
@@ -105,11 +137,11 @@ def cases(rng, tier):
         recs = [rand_rec(rng) for _ in range(rng.randrange(0, 5))]
         recs = [r for r in recs if r[0] != "kcm"]
         if rng.random() < 0.15:
-            recs.append(["data", 1, 2, bytes(rng.randrange(256) for _ in range(rng.choice([MAXP - 9, MAXP - 8, 2 * MAXP]))).hex()])
+            recs.append(["data", 1, 2, "%%BIG%%%d" % rng.choice([MAXP - 9, MAXP - 8, 2 * MAXP])])
         out.append(dict(kind="conn", relay=rng.random() < 0.4, leader=rng.random() < 0.5, recs=recs,
                         chunk=rng.choice(["all", "one", "rand", "rand", "frames"]),
                         select_after=rng.choice([0, 1, 2, 99]),
-                        mut=rng.choice([None, None, "flip", "flip", "trunc", "insert", "badpro", "badrelay", "swap", "dupkcm"]),
+                        mut=rng.choice([None, None, "flip", "flip"] + MUTS),
                         mseed=rng.randrange(10**6)))
     return out
 
@@ -178,6 +210,8 @@ def run_case(case):
         return Result(lines, exp, tags=["seal"])
     if k == "conn":
         return run_conn(case)
+    if k == "framer":
+        return run_framer(case)
     raise ValueError(k)
 
 
@@ -185,18 +219,32 @@ def frame(b):
     return to_be4(len(b)) + b
 
 
-def run_conn(case):
-    import random
-    rng = random.Random(case["mseed"])
-    leader = case["leader"]
-    role = LEADER if leader else FOLLOWER
+class WrongKeyNoise(ToyNoise):
+    """a peer that does not have the dilation key: every tag it produces is off by one"""
+
+    def encrypt(self, m):
+        c = m + bytes([(toy_tag(self.tx, m)[0] + 1) % 256]) * 16
+        self.tx += 1
+        return c
+
+
+def expand_rec(spec):
+    """`%BIG%<n>` stands for a deterministic n-byte payload (keeps cases and replays small)"""
+    if spec[0] == "data" and isinstance(spec[3], str) and spec[3].startswith("%BIG%"):
+        n = int(spec[3][5:])
+        return ["data", spec[1], spec[2], bytes((i * 7 + n) % 251 for i in range(n)).hex()]
+    return spec
+
+
+def peer_pieces(relay, leader, recspecs, wrongkey=False):
+    """the honest peer's byte stream, piece by piece, built with the REAL sender-side code
+    (`_Framer.send_frame`, `_Record.send_record`) over the toy noise"""
     from wormhole._dilation.connector import PROLOGUE_LEADER, PROLOGUE_FOLLOWER
     inbound = PROLOGUE_FOLLOWER if leader else PROLOGUE_LEADER
     outbound = PROLOGUE_LEADER if leader else PROLOGUE_FOLLOWER
-    # honest peer's byte stream, built with the real sender-side code and the toy noise
-    peer_noise = ToyNoise()
-    pieces = []   # (kind, bytes)
-    if case["relay"]:
+    peer_noise = WrongKeyNoise() if wrongkey else ToyNoise()
+    pieces = []
+    if relay:
         pieces.append(("relay", b"ok\n"))
     pieces.append(("prologue", inbound))
     pieces.append(("handshake", frame(peer_noise.write_message())))
@@ -204,22 +252,70 @@ def run_conn(case):
     pfr = dc._Framer(ptx, inbound, outbound)
     pfr._can_send_frames = True
     prec = dc._Record(pfr, peer_noise, FOLLOWER if leader else LEADER)
-    recs = [KCM()] + [mk_rec(s) for s in case["recs"]]
+    recs = [KCM()] + [mk_rec(expand_rec(sp)) for sp in recspecs]
     for r in recs:
         prec.send_record(r)
         pieces.append(("rec", ptx.written.pop()))
+    return inbound, outbound, pieces, recs
+
+
+def stream_len(relay, leader, recspecs):
+    return sum(len(p[1]) for p in peer_pieces(relay, leader, recspecs)[2])
+
+
+def first_reject_chunk(chunks, stages):
+    """The statement of prologue_reject / relay_reject on a chunk list: index of the chunk after which
+    the bytes received for the current stage (relay reply, then prologue) diverge from what is
+    expected AND contain a newline or are at least as long as it; None if that never happens."""
+    stages = list(stages)
+    buf = b""
+    for i, c in enumerate(chunks):
+        buf += c
+        while stages:
+            e = stages[0]
+            if buf.startswith(e):
+                buf = buf[len(e):]
+                stages.pop(0)
+                continue
+            if not e.startswith(buf) and (b"\n" in buf or len(buf) >= len(e)):
+                return i
+            break
+        if not stages:
+            return None
+    return None
+
+
+def run_conn(case):
+    import random
+    rng = random.Random(case["mseed"])
+    leader = case["leader"]
+    role = LEADER if leader else FOLLOWER
     mut = case["mut"]
+    if mut == "badrelay" and not case["relay"]:
+        mut = None
+    inbound, outbound, pieces, recs = peer_pieces(case["relay"], leader, case["recs"], wrongkey=(mut == "wrongkey"))
+    honest_pieces = list(pieces)
+    kcm_piece = 3 if case["relay"] else 2      # pieces before the KCM: [relay] prologue handshake
     first_bad_piece = None     # index of the first piece that is not delivered intact
     must_drop = False
-    if mut == "swap" and len(pieces) >= (5 if case["relay"] else 4):
-        i = len(pieces) - 2
-        pieces[i], pieces[i + 1] = pieces[i + 1], pieces[i]
-        first_bad_piece = i
-        must_drop = True
+    if mut == "swap":
+        if len(pieces) >= kcm_piece + 2:
+            i = len(pieces) - 2
+            pieces[i], pieces[i + 1] = pieces[i + 1], pieces[i]
+            first_bad_piece = i
+            must_drop = True
+        else:
+            mut = None
     elif mut == "dupkcm":
-        i = [j for j, p in enumerate(pieces) if p[0] == "rec"][0]
-        pieces.insert(i + 1, pieces[i])
-        first_bad_piece = i + 1
+        pieces.insert(kcm_piece + 1, pieces[kcm_piece])
+        first_bad_piece = kcm_piece + 1
+        must_drop = True
+    elif mut == "wrongkey":
+        first_bad_piece = kcm_piece
+        must_drop = True
+    elif mut == "badhs":
+        pieces[kcm_piece - 1] = ("handshake", frame(rng.choice([b"xx", b"", b"hs2", b"h"])))
+        first_bad_piece = kcm_piece - 1
         must_drop = True
     stream = b"".join(p[1] for p in pieces)
     offs = [0]
@@ -232,14 +328,21 @@ def run_conn(case):
                 return i
         return len(pieces)
     if mut == "flip":
-        pos = rng.randrange(len(stream))
-        stream = stream[:pos] + bytes([stream[pos] ^ (1 << rng.randrange(8))]) + stream[pos + 1:]
+        pos = case.get("pos", None)
+        if pos is None:
+            pos = rng.randrange(len(stream))
+        bit = case.get("bit", None)
+        if bit is None:
+            bit = rng.randrange(8)
+        stream = stream[:pos] + bytes([stream[pos] ^ (1 << bit)]) + stream[pos + 1:]
         first_bad_piece = piece_of(pos)
         kind = pieces[first_bad_piece][0]
         in_len_prefix = kind in ("handshake", "rec") and pos - offs[first_bad_piece] < 4
         must_drop = not in_len_prefix
     elif mut == "trunc":
-        pos = rng.randrange(len(stream))
+        pos = case.get("pos", None)
+        if pos is None:
+            pos = rng.randrange(len(stream))
         stream = stream[:pos]
         first_bad_piece = piece_of(pos)
     elif mut == "insert":
@@ -247,22 +350,25 @@ def run_conn(case):
         stream = stream[:pos] + bytes([rng.randrange(256)]) + stream[pos:]
         first_bad_piece = piece_of(pos)
     elif mut == "badpro":
-        wrong = rng.choice([outbound, b"Magic-Wormhole Dilation Handshake v2 Leader\n\n", b"\n", b"GET / HTTP/1.0\r\n\r\n", inbound[:-1] + b"x"])
+        wrong = rng.choice([outbound, b"Magic-Wormhole Dilation Handshake v2 Leader\n\n", b"\n", b"GET / HTTP/1.0\r\n\r\n",
+                            inbound[:-1] + b"x", inbound[:-2] + b"x\n", b"M\n", inbound[:10]])
         i = 1 if case["relay"] else 0
         stream = stream[:offs[i]] + wrong + stream[offs[i + 1]:]
         first_bad_piece = i
-        must_drop = b"\n" in wrong or len(wrong) >= len(inbound)
-        if inbound.startswith(wrong):
-            must_drop = False
-    elif mut == "badrelay" and case["relay"]:
-        wrong = rng.choice([b"no\n", b"ok", b"okk\n", b"\n", b"bad relay\n"])
+    elif mut == "badrelay":
+        wrong = rng.choice([b"no\n", b"ok", b"okk\n", b"\n", b"bad relay\n", b"o\n", b"OK\n", b"ok\r\n"])
         stream = wrong + stream[offs[1]:]
         first_bad_piece = 0
-        must_drop = wrong != b"ok"
+    if mut in ("flip", "trunc", "insert"):
+        # the first piece that does not arrive intact = the piece holding the first byte that differs
+        # from the honest stream (an inserted byte equal to its successor is an insertion further on)
+        honest = b"".join(pc[1] for pc in pieces)
+        d = next((i for i in range(min(len(stream), len(honest))) if stream[i] != honest[i]), min(len(stream), len(honest)))
+        first_bad_piece = piece_of(d)
     # chunking
     ch = case["chunk"]
     if ch == "all":
-        chunks = [stream]
+        chunks = [stream] if stream else []
     elif ch == "one":
         chunks = [stream[i:i + 1] for i in range(len(stream))] if len(stream) < 600 else None
     elif ch == "frames":
@@ -304,12 +410,32 @@ def run_conn(case):
 
     lines = [f"new {1 if case['relay'] else 0} {1 if leader else 0} {hx(inbound)}"]
     exp = ["ok"]
+    if mut != "wrongkey":
+        # the model's honest sender against the real one: every record piece, byte for byte
+        for r, pc in zip(recs, honest_pieces[kcm_piece:]):
+            lines.append("send " + show_rec(r))
+            exp.append(hx(pc[1]))
     dead = None
+    dead_at = None
     selected = False
     nsel = 0
+    delivered_before_select = 0
     tags = ["conn:" + ("relay" if case["relay"] else "direct"), "conn:" + ("leader" if leader else "follower"),
             "chunk:" + ch, "mut:" + str(mut)]
-    for c in chunks:
+    select_error = []
+
+    def do_select():
+        nonlocal selected
+        selected = True
+        lines.append("select")
+        try:
+            p.select(mgr)
+            exp.append(summary())
+        except Exception as e:   # select() on a connection that offered itself as candidate must work
+            exp.append(type(e).__name__)
+            select_error.append(type(e).__name__)
+
+    for ci, c in enumerate(chunks):
         lines.append("data " + hx(c))
         if dead:
             exp.append("dead")
@@ -325,40 +451,141 @@ def run_conn(case):
         except Exception as e:
             dead = type(e).__name__
             exp.append(dead + " " + summary())
+        if dead:
+            dead_at = ci
+        if not selected:
+            delivered_before_select = max(delivered_before_select, len(got))
         if not dead and not selected and conn.add_candidate.called:
             nsel += 1
             if nsel > case["select_after"]:
-                p.select(mgr)
-                selected = True
-                lines.append("select")
-                exp.append(summary())
+                do_select()
     if not dead and not selected and conn.add_candidate.called:
-        p.select(mgr)
-        selected = True
-        lines.append("select")
-        exp.append(summary())
+        do_select()
     if dead:
         tags.append("dead:" + dead)
+    if any(len(pc[1]) > MAXP + 100 for pc in honest_pieces):
+        tags.append("multi-packet")
     # ---- oracle: the property on the real run
     viol = []
     sent = [show_rec(r) for r in recs[1:]]
     delivered = [show_rec(r) for r in got]
+
+    def brief(rs):
+        return [x if len(x) <= 48 else x[:40] + f"…({len(x)} chars)" for x in rs[:4]]
+    if select_error:
+        viol.append(("select-raised", f"select() after add_candidate raised {select_error[0]}"))
+    if delivered_before_select:
+        viol.append(("delivered-before-select", f"{delivered_before_select} records reached the manager before select()"))
     if mut is None:
         if delivered != sent or dead:
-            viol.append(("lossless", f"honest stream: sent {sent[:4]}… delivered {delivered[:4]}… dead={dead}"))
+            viol.append(("lossless", f"honest stream: sent {brief(sent)}… delivered {brief(delivered)}… dead={dead}"))
+        if not conn.add_candidate.called or p._record._framer._buffer:
+            viol.append(("lossless", "honest stream: not a candidate / bytes left in the buffer"))
     else:
         # records whose frames arrived intact before the first manipulated piece
-        base = 3 if case["relay"] else 2   # pieces before KCM: [relay] prologue handshake
-        intact = max(0, (first_bad_piece if first_bad_piece is not None else len(pieces)) - base - 1)
-        if mut == "insert" or mut == "trunc":
-            pass
-        if delivered != sent[:len(delivered)] or (len(delivered) > intact and mut not in ("insert", "trunc")):
-            viol.append(("manipulated-delivered", f"mut={mut} delivered {delivered[:4]} beyond intact prefix {intact} of {sent[:4]}"))
-        if mut in ("insert", "trunc") and delivered != sent[:len(delivered)]:
-            viol.append(("manipulated-delivered", f"mut={mut} delivered {delivered[:4]} not a prefix of {sent[:4]}"))
+        intact = max(0, (first_bad_piece if first_bad_piece is not None else len(pieces)) - kcm_piece - 1)
+        if delivered != sent[:len(delivered)]:
+            viol.append(("manipulated-delivered", f"mut={mut} delivered {brief(delivered)} not a prefix of {brief(sent)}"))
+        elif len(delivered) > intact:
+            viol.append(("manipulated-delivered", f"mut={mut} delivered {brief(delivered)} beyond intact prefix {intact} of {brief(sent)}"))
+        if mut == "trunc" and not dead:
+            # a cut honest stream: exactly the records that arrived completely, and no failure
+            want = sent[:intact] if first_bad_piece > kcm_piece else []
+            if delivered != want:
+                viol.append(("lossless", f"truncated at piece {first_bad_piece}: delivered {brief(delivered)} expected {brief(want)}"))
+        if mut == "trunc" and dead:
+            viol.append(("lossless", f"truncated honest stream raised {dead}"))
         if must_drop and not dead:
             viol.append(("not-dropped", f"mut={mut} at piece {first_bad_piece}: connection was not dropped"))
+        if first_bad_piece is not None and first_bad_piece <= kcm_piece and mut not in ("trunc", "insert") and must_drop:
+            # nothing keyed ever arrived intact: never a candidate, nothing queued or delivered
+            if conn.add_candidate.called or got or p._inbound_record_queue:
+                viol.append(("unkeyed-accepted", f"mut={mut} at piece {first_bad_piece}: candidate={conn.add_candidate.called} "
+                             f"queued={len(p._inbound_record_queue)} delivered={len(got)}"))
+    # wrong relay reply / wrong prologue: dropped exactly when |expected| bytes or a newline of a
+    # diverging start have arrived — not later, not earlier — and nothing was processed
+    rej = first_reject_chunk(chunks, ([b"ok\n"] if case["relay"] else []) + [inbound])
+    if rej is not None:
+        tags.append("start-reject")
+        if dead != "Disconnect" or dead_at != rej:
+            viol.append(("start-reject", f"mut={mut}: diverging start must be dropped at chunk {rej}, got dead={dead} at {dead_at}"))
+        if conn.add_candidate.called or got or p._inbound_record_queue or automat_state(p._record, 'n').startswith("want_handshake") \
+                or automat_state(p._record, 'n') == "want_message":
+            viol.append(("start-reject", f"mut={mut}: something was processed on a connection with a diverging start"))
+    elif dead_at is not None and automat_state(p._record._framer, 'm') != "want_frame":
+        viol.append(("start-reject", f"mut={mut}: dropped at chunk {dead_at} although the start had not (yet) diverged"))
     return Result(lines, exp, viol, tags)
+
+
+def rand_framer_case(rng):
+    pro = rng.choice([b"PRO\n\n", b"Magic-Wormhole Dilation Handshake v1 Leader\n\n", b"x", b"ab\ncd\n"])
+    relay = rng.random() < 0.4
+    frames = [bytes(rng.randrange(256) for _ in range(rng.choice([0, 1, 3, 4, 5, 17, 300]))) for _ in range(rng.randrange(0, 4))]
+    stream = (b"ok\n" if relay else b"") + pro + b"".join(frame(f) for f in frames)
+    m = rng.choice(["none", "none", "flip", "trunc", "junk", "extra"])
+    if m == "flip" and stream:
+        pos = rng.randrange(min(len(stream), len(pro) + 8))
+        stream = stream[:pos] + bytes([stream[pos] ^ (1 << rng.randrange(8))]) + stream[pos + 1:]
+    elif m == "trunc":
+        stream = stream[:rng.randrange(len(stream) + 1)]
+    elif m == "junk":
+        stream = bytes(rng.choice([10, 111, 107, 80, 82, 79, 0, 255]) for _ in range(rng.randrange(1, 12))) + stream
+    elif m == "extra":
+        stream = stream + bytes(rng.randrange(256) for _ in range(rng.randrange(1, 6)))
+    cuts = sorted(rng.randrange(len(stream) + 1) for _ in range(rng.choice([0, 1, 2, 5, 30])))
+    chunks, prev = [], 0
+    for c in cuts + [len(stream)]:
+        chunks.append(stream[prev:c])
+        prev = c
+    if rng.random() < 0.5:
+        chunks = [c for c in chunks if c]
+    return dict(kind="framer", relay=relay, pro=pro.hex(), chunks=[c.hex() for c in chunks], m=m)
+
+
+def _drive_framer(relay, pro, chunks):
+    """list(add_and_parse(chunk)) for each chunk on a real `_Framer`; the generator is consumed by
+    hand so that the tokens yielded before a Disconnect are kept"""
+    fr = dc._Framer(FakeTransport(), b"OUT\n\n", pro)
+    if relay:
+        fr.use_relay(b"please relay\n")
+    out, toks_all, err = [], [], None
+    for c in chunks:
+        if err:
+            out.append("dead")
+            continue
+        toks = []
+        g = fr.add_and_parse(c)
+        try:
+            for tok in g:
+                toks.append("prologue" if isinstance(tok, dc.Prologue) else
+                            "relayok" if isinstance(tok, dc.RelayOK) else "frame:" + hx(tok.frame))
+        except Exception as e:
+            err = type(e).__name__
+        toks_all += toks
+        out.append(f"{','.join(toks) if toks else '-'} {err or 'ok'} {automat_state(fr, 'm')} buf={len(fr._buffer)}")
+    return out, toks_all, err, automat_state(fr, 'm'), len(fr._buffer)
+
+
+def run_framer(case):
+    pro = bytes.fromhex(case["pro"])
+    chunks = [bytes.fromhex(c) for c in case["chunks"]]
+    lines = [f"fnew {1 if case['relay'] else 0} {hx(pro)}"] + ["fdata " + hx(c) for c in chunks]
+    out, toks, err, st, blen = _drive_framer(case["relay"], pro, chunks)
+    viol = []
+    tags = ["framer:" + case["m"], "framer:" + (err or "ok")]
+    if chunks:
+        # framer_chunking_invariant on the real code: same tokens / outcome as one call with everything
+        _, toks1, err1, st1, blen1 = _drive_framer(case["relay"], pro, [b"".join(chunks)])
+        if toks != toks1 or err != err1 or st != st1 or (err is None and blen != blen1):
+            viol.append(("chunking", f"chunked: {toks} {err} {st} buf={blen}; at once: {toks1} {err1} {st1} buf={blen1}"))
+    rej = first_reject_chunk(chunks, ([b"ok\n"] if case["relay"] else []) + [pro])
+    if rej is not None:
+        tags.append("start-reject")
+        if err != "Disconnect" or " Disconnect " not in out[rej] or toks:
+            viol.append(("start-reject", f"diverging start must raise Disconnect at chunk {rej} with no token: {out}"))
+    elif err is not None:
+        viol.append(("start-reject", f"framer raised {err} although the start never diverged"))
+    return Result(lines, ["ok"] + out, viol, tags)
 
 
 def search(rng, seconds, seeds):
